@@ -330,7 +330,7 @@ def run_shared(case):
                         out.fail('radio:close-hangs:shared-dongle', 'links %d ops %r: close() of link %d does not return (its thread waits for an answer '
                                  'that never comes)' % (nl, case['ops'], i))
                         drv._thread._sp = True
-                        drv._radio._rsp_queue.put(None)
+                        [drv._radio._rsp_queue.put(None) for _ in range(40)]   # also frees a thread inside the 10 start-up requests
                         closer.join(10)
                         break
                     del peers[i]
@@ -383,7 +383,7 @@ def run_shared(case):
                 try:
                     # a driver thread left waiting for an answer that was handed to another link would make close() wait for ever
                     drv._thread._sp = True
-                    drv._radio._rsp_queue.put(None)
+                    [drv._radio._rsp_queue.put(None) for _ in range(40)]   # also frees a thread inside the 10 start-up requests
                     drv.close()
                 except Exception:  # noqa
                     pass
